@@ -151,9 +151,13 @@ type wsCtl struct {
 	pendingRead chan wsRead
 	dialFail bool
 	dialed   int
+	perConnCloses []int // how often each successfully dialed connection was closed (a retried Start dials again)
 }
 
-type wsConn struct{ k *wsCtl }
+type wsConn struct {
+	k   *wsCtl
+	idx int
+}
 type wsDialer struct{ k *wsCtl }
 
 func (d wsDialer) DialContext(ctx context.Context, url string, h http.Header) (graphql.WSConn, error) {
@@ -163,7 +167,9 @@ func (d wsDialer) DialContext(ctx context.Context, url string, h http.Header) (g
 	if d.k.dialFail {
 		return nil, errWsInjected
 	}
-	return wsConn{d.k}, nil
+	d.k.closed = false // a fresh connection
+	d.k.perConnCloses = append(d.k.perConnCloses, 0)
+	return wsConn{d.k, len(d.k.perConnCloses) - 1}, nil
 }
 
 func (c wsConn) WriteMessage(mt int, data []byte) error {
@@ -231,6 +237,9 @@ func (c wsConn) Close() error {
 	k := c.k
 	k.mu.Lock()
 	k.connCloses++
+	if c.idx < len(k.perConnCloses) {
+		k.perConnCloses[c.idx]++
+	}
 	k.closed = true
 	pr := k.pendingRead
 	k.pendingRead = nil
@@ -1712,5 +1721,95 @@ func wsStartFaults(c *Ctx) {
 			}
 		}
 		c.Res.Count("start:" + s.name)
+		if got.err == nil {
+			continue
+		}
+		// ---- a failed Start retried on the SAME client, then Close: every connection that was dialed must end up
+		// closed and the error channel of the successful Start must be closed ----
+		c.Res.Eval()
+		c.Res.NonTrivial("start-retry:" + s.name)
+		k.mu.Lock()
+		k.dialFail = false
+		k.mu.Unlock()
+		res2 := make(chan sr, 1)
+		go func() { ch, err := cl.Start(context.Background()); res2 <- sr{ch, err} }()
+		var got2 sr
+		acked := false
+		var parked chan wsRead
+	loop2:
+		for {
+			select {
+			case rep := <-k.reports:
+				switch rep.kind {
+				case "write":
+					rep.wgate <- true
+				case "read":
+					if !acked {
+						acked = true
+						rep.rgate <- wsRead{data: ack}
+					} else {
+						parked = rep.rgate // the reader's read: stays parked until the connection is closed
+					}
+				}
+			case got2 = <-res2:
+				break loop2
+			case <-time.After(wsWait):
+				fail("start-hangs", "retried Start did not return")
+				break loop2
+			}
+		}
+		_ = parked
+		if got2.err != nil {
+			fail("start-retry-failed", fmt.Sprintf("a Start retried after a failed Start fails although dial, init and ack succeed: %v", got2.err))
+			continue
+		}
+		closeRes := make(chan error, 1)
+		go func() { closeRes <- cl.Close() }()
+	loop3:
+		for {
+			select {
+			case rep := <-k.reports:
+				switch rep.kind {
+				case "write":
+					rep.wgate <- true
+				case "read":
+					// reads after the close are answered by the fake connection itself
+				}
+			case <-closeRes:
+				break loop3
+			case <-time.After(wsWait):
+				fail("close-hangs", "Close after a retried Start did not return")
+				break loop3
+			}
+		}
+		k.mu.Lock()
+		per := append([]int{}, k.perConnCloses...)
+		k.mu.Unlock()
+		for ci, n := range per {
+			if n == 0 {
+				fail("close-left-conn-open", fmt.Sprintf("connection #%d (of %d dialed) was never closed after failed Start, retried Start, Close", ci+1, len(per)))
+			}
+		}
+		select {
+		case _, open := <-got2.ch:
+			if open {
+				// an error report is allowed before the close; the channel must be closed after it
+				select {
+				case _, open2 := <-got2.ch:
+					if open2 {
+						fail("close-left-errchan-open", "error channel still open after Close (retried Start)")
+					}
+				case <-time.After(100 * time.Millisecond):
+					fail("close-left-errchan-open", "error channel still open after Close (retried Start)")
+				}
+			}
+		case <-time.After(100 * time.Millisecond):
+			fail("close-left-errchan-open", "error channel still open after Close (retried Start)")
+		}
+		// let the reader goroutine go
+		select {
+		case <-exited:
+		case <-time.After(200 * time.Millisecond):
+		}
 	}
 }
